@@ -212,6 +212,13 @@ def check_set(ctx, obs):
                     res.oracle_failures.append({'key': 'defval-bits', 'what': '%s::%s: DEFVAL bits %r emitted as %r' % (mn, name, v, rec.get('default')),
                                                 'input': inp})
                 continue
+            # correspondence of Model.Syntax.genDefVal with the emitted record (literal notations; labels and bit lists above)
+            if k in ('num', 'hex', 'bin', 'str', 'hexstr', 'binstr') and ctx.defval_reqs is not None:
+                lit = {'num': ['num', v], 'hex': ['hex', '%X' % v] if k == 'hex' else None, 'bin': ['bin', bin(v)[2:]] if k == 'bin' else None,
+                       'str': ['str', v], 'hexstr': ['hex', v], 'binstr': ['bin', v]}[k]
+                ctx.defval_reqs.append({'op': 'defval', 'isInt': is_int, 'isOid': base.get('base') == 'OBJECT IDENTIFIER', 'isBits': 'bits' in base,
+                                        'enum': None, 'known': [], 'defval': lit})
+                ctx.defval_metas.append(('defval', (mn, name, d['defval'], syn['base']), dflt))
             if want is not None:
                 if dflt is None or any(dflt.get(kk) != vv for kk, vv in want.items()):
                     res.oracle_failures.append({'key': 'defval', 'what': '%s::%s: DEFVAL %r on %s emitted as %r, expected %r' % (
@@ -225,6 +232,27 @@ def compare(ctx, reqs, metas):
     for (tag, a, got), out in zip(metas, ctx.model.batch(reqs)):
         if isinstance(out, dict) and 'driver_error' in out:
             res.corr_failures.append({'what': 'driver error ' + out['driver_error']})
+            continue
+        if tag == 'defval':
+            # canonical image of the emitted record in the model's vocabulary
+            if got is None:
+                impl = 'nothing'
+            elif 'format' not in got:
+                impl = 'basetypeonly'
+            elif got['format'] == 'decimal':
+                impl = ['decimal', got['value']]
+            elif got['format'] in ('hex', 'bin') and isinstance(out, list) and out[0] in ('hexofint', 'binofint'):
+                impl = [out[0], int(got['value'])] if str(got['value']).lstrip('-').isdigit() and got['format'] == out[0][:3] else ['?', got]
+            elif got['format'] == 'hex' and isinstance(out, list) and out[0] == 'hexdigits':
+                impl = ['hexdigits', got['value']]
+            elif got['format'] == 'hex' and isinstance(out, list) and out[0] == 'hexofbin':
+                impl = ['hexofbin', None] if got['value'] == '' else ['hexofbin', len(got['value']), int(got['value'], 16)]
+            elif got['format'] == 'string':
+                impl = ['string', got['value']]
+            else:
+                impl = ['?', got]
+            if impl != out:
+                res.corr_failures.append({'what': 'emitted DEFVAL record differs from Model.Syntax.genDefVal', 'object': a, 'impl': got, 'model': out})
             continue
         if tag == 'ranges':
             if out != got:
@@ -257,6 +285,7 @@ def run(ctx):
                 'textual conventions within and across modules, every DEFVAL notation (number, hex, binary, string, enum label, bit list, OID '
                 'label); non-trivial = at least one refinement or DEFVAL; distinct by generated text')
     reqs, metas = [], []
+    ctx.defval_reqs, ctx.defval_metas = reqs, metas
     ranges_stream(ctx, reqs, metas)
     n = 100 if ctx.tier == 'quick' else 1500
     base = ctx.seed * 100000 + 20000
